@@ -203,7 +203,7 @@ func execReactorConc(in string) Result {
 	}
 	var delivs []deliv
 	unknownID := atomic.Int64{}
-	unknownID.Store(1000)
+	unknownID.Store(100) // ids stay small: the Coq side counts in unary (seeds < 100, unknown 101.., racing pair 300..)
 
 	threads := make([]*rcThread, P+2*K+2) // producers, consumers, one helper per consumer (racing finish), the racing pair
 	for i := range threads {
@@ -337,7 +337,7 @@ func execReactorConc(in string) Result {
 			}
 		}
 		for r := 0; r < race && !hung; r++ {
-			id := 2000 + r
+			id := 300 + r
 			it := models.NewItem(strconv.Itoa(id), &models.URL{Raw: "http://seed.example/r"}, "")
 			it.SetSource(models.ItemSourceQueue)
 			ir := make(chan string, 1)
